@@ -1,5 +1,6 @@
 import GqlProofs.Props.C03
 import GqlProofs.Json.ParsedClean
+import GqlProofs.Parser.Stream
 set_option linter.unusedSimpArgs false
 set_option linter.unusedVariables false
 /-
@@ -225,5 +226,48 @@ theorem valid_source_lexClean (inp : Bytes) (h : Utf8.valid inp) (cur : Cur) : L
     obtain ⟨h1, h2⟩ := Utf8.decode_sound inp cps hd
     subst h1
     exact lexClean_enc cps h2 cur
+
+/-! ### the token stream of a well-formed UTF-8 source -/
+
+/-- `utf8Encode v` is well-formed UTF-8 for the strict decoder of C03 -/
+theorem utf8Encode_valid (v : List Nat) : Utf8.valid (utf8Encode v) := by
+  obtain ⟨cps, hs, e⟩ := utf8Encode_scalars v
+  unfold Utf8.valid
+  rw [e, Utf8.decode_encode cps hs]; rfl
+
+/-- every token ahead of a lexer state whose remaining input is the encoding of scalars has a value
+    that is `utf8Encode` of a list of code points -/
+theorem rawS_values_enc (cps : List Nat) (hs : AllScalar cps) (cur : Cur) :
+    ∀ t ∈ (rawS (utf8Encode cps) cur).toks, ∃ v, t.value = utf8Encode v := by
+  induction hn : (utf8Encode cps).length using Nat.strongRecOn generalizing cps cur with
+  | _ n ih =>
+    cases h : readToken (utf8Encode cps) cur with
+    | err e => rw [rawS_err h]; intro t ht; simp [Stream.toks] at ht
+    | tok t rest' c' =>
+      rw [rawS_tok h]
+      by_cases hk : t.kind = .eof
+      · rw [if_pos hk]; intro t ht; simp [Stream.toks] at ht
+      · rw [if_neg hk]
+        obtain ⟨hv, ⟨cps', hs', rfl⟩, _⟩ := readToken_enc_step cps cur hs h
+        have hp := readToken_progress (utf8Encode cps) cur
+        rw [h] at hp
+        intro u hu
+        simp only [Stream.toks, List.mem_cons] at hu
+        rcases hu with rfl | hu
+        · exact hv
+        · exact ih _ (by have := hp.2 hk; omega) cps' hs' c' rfl u hu
+
+/-- every token of a well-formed UTF-8 source has a well-formed UTF-8 value -/
+theorem valid_source_token_values (inp : Bytes) (h : Utf8.valid inp) (cur : Cur) :
+    ∀ t ∈ (rawS inp cur).toks, Utf8.valid t.value := by
+  unfold Utf8.valid at h
+  cases hd : Utf8.decode inp with
+  | none => rw [hd] at h; cases h
+  | some cps =>
+    obtain ⟨h1, h2⟩ := Utf8.decode_sound inp cps hd
+    subst h1
+    intro t ht
+    obtain ⟨v, hv⟩ := rawS_values_enc cps h2 cur t ht
+    rw [hv]; exact utf8Encode_valid v
 
 end Gql.EndToEnd
